@@ -31,8 +31,7 @@ ASSUMPTIONS = ['operands are coherent tables (C05) with at least one observation
                'a metadata-merge function is a deterministic total function of its two arguments returning a dict or None; '
                'the property speaks about functions that do not create metadata out of nothing (f(None, None) is None): for '
                'tag/const the metadata clause is only checked where the general path of a two-table merge runs',
-               'None is meant to be passed for both metadata functions or for neither (one None: only model/implementation '
-               'agreement is checked, the call raises TypeError)',
+               'a metadata function that is None means "no metadata on that axis" (the fast path needs both to be None)',
                'on the fast path the order of the ids is not promised (both sides are compared sorted by id)']
 
 MODES = ['union', 'intersection', 'bogus']
@@ -287,19 +286,16 @@ def oracle(case, obs):
     k = len(cs)
     sm, om = case['sample'], case['observation']
     fast = takes_fast(case)
-    n_none = [case['smf'], case['omf']].count('None')
     if 'bogus' in (sm, om):
         if k >= 2 and obs != ['err', 1]:
             return ['an unknown merge mode was not refused with TableException: %s' % obs[:1]]
         return []
-    if n_none == 1 and not fast:
-        return []                                   # outside the domain (see ASSUMPTIONS)
 
     def idset(mode, key):
         sets = [set(c[key]) for c in cs]
         return set.union(*sets) if mode == 'union' else set.intersection(*sets)
     want_o, want_s = idset(om, 'oids'), idset(sm, 'sids')
-    pre = 'none-functions-refused: ' if (n_none == 2 and not fast) else ''
+    pre = ''
     if not want_o or not want_s:
         if obs != ['err', 1]:
             return [pre + 'no id is left on an axis but the merge was not refused with TableException: %s' % obs[:2]]
@@ -329,24 +325,23 @@ def oracle(case, obs):
     if sm == 'union' and om == 'union' and sum(R.values()) != tot:
         fails.append('grand total %r differs from the sum of the operands\' totals %r' % (sum(R.values()), tot))
     # metadata
-    if n_none == 2:
-        return fails[:4]                            # metadata are to be ignored
+    if k == 1:
+        return fails[:4]                            # nothing to merge with
     for axis, key, mdkey, fname in (('o', 'oids', 'omd', case['omf']), ('s', 'sids', 'smd', case['smf'])):
-        if fname == 'None' or (fname in CREATES and (k != 2 or fast)):
+        if fname in CREATES and (k != 2 or fast):
             continue
-        f = _text_prefer_self if fname in ('default', 'prefer_self') else MDF[fname][1]
+        if fname == 'None':                         # no function: no metadata on this axis
+            f = lambda x, y: None
+        else:
+            f = _text_prefer_self if fname in ('default', 'prefer_self') else MDF[fname][1]
         for n, i in enumerate(r[key]):
-            if k == 1:
-                want = _md_for(cs[0], axis, i)
-            else:
-                want = _md_for(cs[0], axis, i)
-                for c in cs[1:]:
-                    want = f(want, _md_for(c, axis, i))
+            want = _md_for(cs[0], axis, i)
+            for c in cs[1:]:
+                want = f(want, _md_for(c, axis, i))
             got = r[mdkey][n] if r[mdkey] is not None else None
             if (got or None) != (want or None):
-                tag = 'md-empty-preferred: ' if (fname in ('default', 'prefer_self') and not got and want) else ''
-                fails.append('%smetadata of %s is %r, the %s function over the operands\' metadata gives %r'
-                             % (tag, i, got, fname, want))
+                fails.append('metadata of %s is %r, the %s function over the operands\' metadata gives %r'
+                             % (i, got, fname, want))
     return fails[:6]
 
 
@@ -446,11 +441,4 @@ def shrink(case):
                     c = copy.deepcopy(case); c['specs'][i]['mat'][a][b] = 1.0; c['specs'][i]['layout'] = ['dense']; yield c
 
 
-def _all_prefixed(prefix):
-    def sig(case, impl_obs, model_obs, fails):
-        return bool(fails) and all(f.startswith(prefix) for f in fails)
-    return sig
-
-
-# a known_findings entry with one of these ids and status "known" turns the matching oracle failures into KNOWN-FINDING lines
-SIGNATURES = {'F25': _all_prefixed('md-empty-preferred: '), 'F26': _all_prefixed('none-functions-refused: ')}
+SIGNATURES = {}
